@@ -1,0 +1,15 @@
+//go:build !verif
+
+// Package verifhook is instrumentation for the external verification harness.
+// Without the build tag "verif" it is empty: On is a false constant, so every
+// guarded call site is removed by the compiler.
+package verifhook
+
+// On reports whether the hooks are compiled in.
+const On = false
+
+// Emit is a no-op without the verif tag.
+func Emit(kind string, args ...int) {}
+
+// Gate is a no-op without the verif tag.
+func Gate(point string, id uintptr) {}
